@@ -229,7 +229,7 @@ class Library:
             if any(not _conc(k) for k in keys):
                 if key is None and not reverse and all(isinstance(k, str) or (isinstance(k, Sym) and k.is_label()) for k in keys):
                     return VList(sorted_labels(it, [it.label_term(k) for k in keys]))
-                raise Unsupported('sorted with symbolic keys')
+                return VList(stable_sort(it, items, keys, reverse))
             idx = sorted(range(len(items)), key=lambda i: keys[i], reverse=reverse)
             return VList([items[i] for i in idx])
 
@@ -618,7 +618,8 @@ class Library:
                 def sort(key=None, reverse=False):
                     keys = [it.call(key, [x], {}) if key else x for x in L]
                     if not all(_conc(k) for k in keys):
-                        raise Unsupported('sort symbolic')
+                        L[:] = stable_sort(it, list(L), keys, reverse)
+                        return
                     idx = sorted(range(len(L)), key=lambda i: keys[i], reverse=reverse)
                     L[:] = [L[i] for i in idx]
                 return N(sort)
@@ -748,10 +749,26 @@ class Library:
             return N(lambda p: Sym(z3.SuffixOf(st(p), v.t)))
         if name == 'find':
             return N(lambda p: Sym(z3.IndexOf(v.t, st(p), 0)))
-        if name in ('upper', 'lower', 'strip', 'lstrip', 'rstrip', 'split', 'replace'):
-            h = getattr(it, 'string_theory', None)
-            if h is not None:
-                return N(lambda *a: h.method(it, v, name, a))
+        if name in ('upper', 'lower'):
+            return N(lambda: Sym(str_case(v.t, name)))
+        if name in ('strip', 'lstrip', 'rstrip'):
+            def strip(chars=' \t\n\r\x0b\x0c'):
+                if not isinstance(chars, str) or not chars:
+                    raise Unsupported('strip with symbolic character set')
+                ctx = it.ctx
+                cls = z3.Union(*[z3.Re(c) for c in chars]) if len(chars) > 1 else z3.Re(chars)
+                pre, mid, post = ctx.fresh(z3.StringSort(), 'pre'), ctx.fresh(z3.StringSort(), 'mid'), ctx.fresh(z3.StringSort(), 'post')
+                # python: remove the longest prefix / suffix made of `chars` (axiom of str.strip, differentially tested)
+                ctx.assume(v.t == z3.Concat(pre, mid, post))
+                ctx.assume(z3.InRe(pre, z3.Star(cls)) if name != 'rstrip' else pre == z3.StringVal(''))
+                ctx.assume(z3.InRe(post, z3.Star(cls)) if name != 'lstrip' else post == z3.StringVal(''))
+                notin = lambda ch: z3.Not(z3.InRe(ch, cls))
+                if name != 'rstrip':
+                    ctx.assume(z3.Or(z3.Length(mid) == 0, notin(z3.SubString(mid, 0, 1))))
+                if name != 'lstrip':
+                    ctx.assume(z3.Or(z3.Length(mid) == 0, notin(z3.SubString(mid, z3.Length(mid) - 1, 1))))
+                return Sym(mid)
+            return N(strip)
         raise Unsupported('symbolic str.' + name)
 
     # ------------------------------------------------------------------ stub modules -------
@@ -897,6 +914,53 @@ class Library:
 
 class UuidHex:
     pass
+
+
+StrUpperAtom = z3.Function('str_upper_atom', z3.StringSort(), z3.StringSort())
+StrLowerAtom = z3.Function('str_lower_atom', z3.StringSort(), z3.StringSort())
+
+
+def str_case(t, which):
+    """str.upper / str.lower distribute over concatenation; constants are folded; symbolic atoms stay abstract"""
+    t = z3.simplify(t)
+    if z3.is_string_value(t):
+        sv = t.as_string()
+        return z3.StringVal(sv.upper() if which == 'upper' else sv.lower())
+    if z3.is_app(t) and t.decl().kind() == z3.Z3_OP_SEQ_CONCAT:
+        return z3.Concat(*[str_case(t.arg(i), which) for i in range(t.num_args())])
+    return (StrUpperAtom if which == 'upper' else StrLowerAtom)(t)
+
+
+def sym_less(it, a, b):
+    """python `a < b` for ints / bools / lists / tuples thereof with symbolic components: forks on the first
+    differing component (lexicographic order)"""
+    la = a.items if isinstance(a, VList) else (list(a) if isinstance(a, tuple) else None)
+    lb = b.items if isinstance(b, VList) else (list(b) if isinstance(b, tuple) else None)
+    if la is not None and lb is not None:
+        for x, y in zip(la, lb):
+            e = it.eq(x, y)
+            if e is True or (e is not False and it.ctx.choose(it.as_bool_term(e))):
+                continue
+            return sym_less(it, x, y)
+        return len(la) < len(lb)
+    if la is not None or lb is not None:
+        raise Unsupported('comparison of sequence with scalar')
+    if _conc(a) and _conc(b):
+        return a < b
+    return it.ctx.choose(it.int_term(a) < it.int_term(b))
+
+
+def stable_sort(it, items, keys, reverse=False):
+    """insertion sort (stable) by symbolic comparisons; every outcome of the comparisons is a path"""
+    if len(items) > 4:
+        raise Unsupported('sort of more than 4 symbolic keys')
+    order = []
+    for i in range(len(items)):
+        j = len(order)
+        while j > 0 and (sym_less(it, keys[i], keys[order[j - 1]]) if not reverse else sym_less(it, keys[order[j - 1]], keys[i])):
+            j -= 1
+        order.insert(j, i)
+    return [items[i] for i in order]
 
 
 LabelLE = z3.Function('label_le', LabelSort, LabelSort, z3.BoolSort())
